@@ -120,6 +120,68 @@ func (r *rewriter) isChan(e ast.Expr) bool {
 	return isCh
 }
 
+func (r *rewriter) isMap(e ast.Expr) bool {
+	tv, ok := r.info.Types[e]
+	if !ok || tv.Type == nil {
+		return false
+	}
+	_, isM := tv.Type.Underlying().(*types.Map)
+	return isM
+}
+
+// refKeyMap reports whether e is a map whose key has no natural order (pointer, interface, channel).
+func (r *rewriter) refKeyMap(e ast.Expr) bool {
+	tv, ok := r.info.Types[e]
+	if !ok || tv.Type == nil {
+		return false
+	}
+	m, isM := tv.Type.Underlying().(*types.Map)
+	if !isM {
+		return false
+	}
+	switch m.Key().Underlying().(type) {
+	case *types.Pointer, *types.Interface, *types.Chan:
+		return true
+	}
+	return false
+}
+
+// rangeMap: Go randomises map iteration order, which the scheduler cannot own. The loop is rewritten to visit
+// the keys in a deterministic order (natural order, or order of insertion for reference keys):
+//   for k, v := range m { B }  ->  for _it := vs.MapRange(m); _it.Next(); { k, v := _it.K, _it.V; B }
+// Entries deleted during the iteration are skipped, entries added are not visited - both allowed by the spec.
+func (r *rewriter) rangeMap(n *ast.RangeStmt) ast.Stmt {
+	r.stats["range-map"]++
+	it := r.name("it")
+	init := &ast.AssignStmt{Lhs: []ast.Expr{it}, Tok: token.DEFINE, Rhs: []ast.Expr{r.call("MapRange", r.expr(n.X))}}
+	cond := &ast.CallExpr{Fun: &ast.SelectorExpr{X: it, Sel: ast.NewIdent("Next")}}
+	var head []ast.Stmt
+	var lhs, rhs []ast.Expr
+	if n.Key != nil {
+		if id, ok := n.Key.(*ast.Ident); !ok || id.Name != "_" {
+			lhs = append(lhs, n.Key)
+			rhs = append(rhs, &ast.SelectorExpr{X: it, Sel: ast.NewIdent("K")})
+		}
+	}
+	if n.Value != nil {
+		if id, ok := n.Value.(*ast.Ident); !ok || id.Name != "_" {
+			lhs = append(lhs, n.Value)
+			rhs = append(rhs, &ast.SelectorExpr{X: it, Sel: ast.NewIdent("V")})
+		}
+	}
+	if len(lhs) > 0 {
+		head = append(head, &ast.AssignStmt{Lhs: lhs, Tok: n.Tok, Rhs: rhs})
+		if n.Tok == token.DEFINE {
+			// avoid "declared and not used" for loop variables the body ignores
+			for _, l := range lhs {
+				head = append(head, &ast.AssignStmt{Lhs: []ast.Expr{ast.NewIdent("_")}, Tok: token.ASSIGN, Rhs: []ast.Expr{l}})
+			}
+		}
+	}
+	body := append(head, r.stmts(n.Body.List)...)
+	return &ast.ForStmt{Init: init, Cond: cond, Body: &ast.BlockStmt{List: body}}
+}
+
 // constOrNil reports whether e must not be hoisted with := (untyped constant or nil).
 func (r *rewriter) constOrNil(e ast.Expr) bool {
 	tv, ok := r.info.Types[e]
@@ -183,6 +245,9 @@ func (r *rewriter) stmt(s ast.Stmt) ast.Stmt {
 		if r.isChan(n.X) {
 			return r.rangeChan(n)
 		}
+		if r.isMap(n.X) {
+			return r.rangeMap(n)
+		}
 		n.X = r.expr(n.X)
 		n.Body.List = r.stmts(n.Body.List)
 		return n
@@ -227,6 +292,17 @@ func (r *rewriter) stmt(s ast.Stmt) ast.Stmt {
 		n.X = r.expr(n.X)
 		return n
 	case *ast.AssignStmt:
+		if len(n.Lhs) == 1 && len(n.Rhs) == 1 && n.Tok == token.ASSIGN {
+			if ix, ok := n.Lhs[0].(*ast.IndexExpr); ok && r.refKeyMap(ix.X) {
+				r.stats["map-set"]++
+				k := r.name("k")
+				pre := &ast.AssignStmt{Lhs: []ast.Expr{k}, Tok: token.DEFINE, Rhs: []ast.Expr{r.expr(ix.Index)}}
+				ix.X = r.expr(ix.X)
+				ix.Index = k
+				n.Rhs[0] = r.expr(n.Rhs[0])
+				return &ast.BlockStmt{List: []ast.Stmt{pre, r.callStmt("Born", k), n}}
+			}
+		}
 		if len(n.Lhs) == 2 && len(n.Rhs) == 1 {
 			if u, ok := isArrow(n.Rhs[0]); ok {
 				r.stats["recv2"]++
